@@ -15,6 +15,93 @@ open Marlin (Label LPoly Query sortDedup checkDegreesAndBounds groupQueries look
 
 variable {F : Type} [Field F] [DecidableEq F]
 
+/-! ### the squeeze schedule: `1 + n` challenges per `open` / `check` -/
+
+theorem openLoop_rest (ck : CK F) (ps : List (LPoly F)) (sts : List (List F)) (ξs : List F)
+    (acc res : List F × List F) (rest : List F)
+    (h : openLoop ck ps sts ξs acc = .ok (res, rest)) :
+    rest = ξs.drop (min ps.length sts.length + 1) := by
+  induction ps generalizing sts ξs acc with
+  | nil =>
+    cases ξs with
+    | nil => cases sts <;> simp [openLoop] at h
+    | cons ξ ξs =>
+      cases sts <;>
+      · simp only [openLoop] at h
+        injection h with h; injection h with _ h2
+        simp [← h2]
+  | cons p ps ih =>
+    cases sts with
+    | nil =>
+      cases ξs with
+      | nil => simp [openLoop] at h
+      | cons ξ ξs =>
+        simp only [openLoop] at h
+        injection h with h; injection h with _ h2
+        simp [← h2]
+    | cons st sts =>
+      cases ξs with
+      | nil => simp [openLoop] at h
+      | cons ξ ξs =>
+        simp only [openLoop] at h
+        split at h
+        · cases h
+        · have := ih sts ξs _ h
+          rw [this]
+          simp only [List.length_cons, Nat.add_min_add_right, List.drop_succ_cons]
+
+/-- **The prover squeezes exactly `1 + n` challenges** (`n` = polynomials zipped with states): one
+before the loop, one more after every polynomial -/
+theorem open_rest (ck : CK F) (ps : List (LPoly F)) (z : F) (sts : List (List F)) (ξs : List F)
+    (π : KZG.Proof F) (rest : List F) (h : Sonic.open ck ps z sts ξs = .ok (π, rest)) :
+    rest = ξs.drop (min ps.length sts.length + 1) := by
+  unfold Sonic.open at h
+  split at h
+  · cases h
+  · rename_i P R rest' hloop
+    split at h
+    · cases h
+    · injection h with h; injection h with _ h2
+      rw [← h2]
+      exact openLoop_rest ck ps sts ξs _ _ _ hloop
+
+theorem restOf_drop (cs : List (LComm F)) (vs ξs rest : List F) (h : restOf cs vs ξs = some rest) :
+    rest = ξs.drop (min cs.length vs.length + 1) := by
+  induction cs generalizing vs ξs with
+  | nil =>
+    cases ξs with
+    | nil => simp [restOf] at h
+    | cons ξ ξs => simp only [restOf, Option.some.injEq] at h; simp [← h]
+  | cons c cs ih =>
+    cases vs with
+    | nil =>
+      cases ξs with
+      | nil => simp [restOf] at h
+      | cons ξ ξs => simp only [restOf, Option.some.injEq] at h; simp [← h]
+    | cons v vs =>
+      cases ξs with
+      | nil => simp [restOf] at h
+      | cons ξ ξs =>
+        simp only [restOf] at h
+        rw [ih vs ξs h]
+        simp only [List.length_cons, Nat.add_min_add_right, List.drop_succ_cons]
+
+/-- **The verifier squeezes exactly `1 + n` challenges** (`n` = commitments zipped with values),
+whatever it decides -/
+theorem check_rest (vk : VK F) (cs : List (LComm F)) (z : F) (vs : List F) (π : KZG.Proof F)
+    (ξs : List F) (b : Bool) (rest : List F) (h : check vk cs z vs π ξs = .ok (b, rest)) :
+    rest = ξs.drop (min cs.length vs.length + 1) := by
+  rw [check_eq] at h
+  cases hr : restOf cs vs ξs with
+  | none => rw [hr] at h; cases h
+  | some r =>
+    rw [hr] at h
+    simp only at h
+    split at h
+    · injection h with h; injection h with _ h2
+      rw [← h2]; exact restOf_drop cs vs ξs r hr
+    · cases h
+
 /-! ### batched completeness with the unused challenges -/
 
 /-- `batch_open` (trait default) → `batch_check` (Sonic): accepted for every randomizer list, and the
